@@ -95,7 +95,7 @@ def ill_items(r):
 
 
 def plan(tier, seed):
-    specs = [{"kind": "labelled", "spellings": 3 if tier == "quick" else 8}, {"kind": "syntactic"}, {"kind": "reconfigured"}]
+    specs = [{"kind": "labelled", "spellings": 3 if tier == "quick" else 8}, {"kind": "syntactic"}, {"kind": "reconfigured"}, {"kind": "threads", "rounds": 8 if tier == "quick" else 80}]
     n = 10 if tier == "quick" else 44
     for i in range(n):
         specs.append({"kind": "random", "n": 4000 if tier == "quick" else 40000, "depth": (2 + i % 3) if tier == "quick" else (3 + i % 4)})
@@ -269,6 +269,59 @@ def run_reconfigured(ctx):
                 ctx.case(h("reconfigured", sname, warm, between), True)
 
 
+def run_threads(ctx, rounds):
+    """Strict environments and lenient ones compiling at the same time: a default environment, a shallow copy of it with
+    type checks switched off and wide limits (copy.copy is how a caller derives a variant without subclassing), separately
+    built lenient / narrowed environments. Whatever the lenient ones are doing, a strict environment refuses every
+    ill-typed or out-of-range query and accepts every well-formed one (yields injected in the lexer, parser and environment)."""
+    import jsonpath
+    from rt import threads
+
+    ill = ["$[?length(@.*) == 1]", "$[?@.a && length(@.a)]", "$[?count(1) == 1]", "$[?@.* == 1]", "$[?match(@.a, 'x') == true]", "$[?nope(@.a)]", "$[?true]", "$[01]", "$[1,]", "$[%d]" % (2 ** 53), "$[:%d]" % (2 ** 53), "$[?count(@[%d:]) > 0]" % -(2 ** 53)]
+    well = ["$[?length(@.a) == 1]", "$[?count(@.*) > 1 && @.a]", "$[?match(@.a, 'x')]", "$.a[1:2]", "$[%d]" % (2 ** 53 - 1), "$..[?@.a == 1 || @.b]"]
+    narrow_bad = ["$[11]", "$[-11]", "$[0:11]", "$[?@[12]]"]
+    for rnd in range(rounds):
+        E = jsonpath.JSONPathEnvironment()
+        L = copy.copy(E)
+        L.well_typed = False
+        L.max_int_index, L.min_int_index = 2 ** 70, -(2 ** 70)
+        W = jsonpath.JSONPathEnvironment(well_typed=False)
+        S = jsonpath.JSONPathEnvironment()
+        N = narrow_env()
+        errors = []
+
+        def worker(wid, rng):
+            try:
+                for _ in range(25):
+                    if wid % 2 == 0:
+                        env_ = rng.choice([E, S, N, jsonpath.DEFAULT_ENV])
+                        bad = rng.random() < 0.6
+                        text = rng.choice(ill + (narrow_bad if env_ is N else [])) if bad else rng.choice(well[:4] if env_ is N else well)
+                        o = impl.call(env_.compile, text)
+                        if bad and (o.ok or not isinstance(o.exc, jsonpath.JSONPathError)):
+                            errors.append({"text": text, "environment": "strict (%s)" % ("shares its parser with a lenient copy" if env_ is E else "narrowed" if env_ is N else "separate"), "outcome": "accepted" if o.ok else o.desc()})
+                            return
+                        if not bad and not o.ok:
+                            errors.append({"text": text, "environment": "strict", "outcome": o.desc()})
+                            return
+                    else:
+                        env_ = rng.choice([L, W, L])
+                        impl.call(env_.compile, rng.choice(ill + well))
+            except Exception as e:  # noqa: BLE001
+                errors.append({"thread": wid, "raised": "%s: %s" % (type(e).__name__, e)})
+        st = threads.stress(worker, nthreads=6, files=("env.py", "parse.py", "lex.py", "filter.py", "selectors.py", "stream.py"), seed=ctx.seed * 977 + rnd, prob=0.05)
+        ctx.evaluation(6 * 25)
+        ctx.case(h("threads", st["signature"]), True)
+        ctx.count("compiles_while_other_environments_compile", 6 * 25)
+        ctx.count("injected_yields", st["yields"])
+        if st["timed_out"]:
+            ctx.notes.append("a thread round timed out (inconclusive)")
+        if errors:
+            ctx.violation("strict-environment-gives-another-verdict-while-other-environments-compile", {"kind": "threads"}, errors[0])
+            return
+        ctx.cell("configurations", "compiling while lenient environments (one a shallow copy) compile")
+
+
 def toggled_envs():
     """Type checks enabled by assignment after construction, and by a subclass's __init__."""
     import jsonpath
@@ -328,6 +381,8 @@ def run(spec, ctx):
     kind = spec["kind"]
     if kind == "reconfigured":
         run_reconfigured(ctx)
+    elif kind == "threads":
+        run_threads(ctx, spec["rounds"])
     elif kind == "labelled":
         for tenv in toggled_envs():
             for label, item in ill_items(r):
@@ -443,6 +498,9 @@ def replay(case, ctx):
 
     if case.get("kind") == "reconfigured":
         run_reconfigured(ctx)
+        return
+    if case.get("kind") == "threads":
+        run_threads(ctx, 40)
         return
 
     env = narrow_env() if case.get("narrow") else (toggled_envs()[0] if str(case.get("class", "")).startswith("toggled-on") else jsonpath.JSONPathEnvironment())
